@@ -131,8 +131,24 @@ def lookup_fn(src_text, fn, die):
     if not mf:
         die("%s: loop over the bucket not found" % fn)
     loop, _ = _bs.block_at(inner, mf.end() - 1, die)
-    st = [x for x in _bs.statements(loop, die) if x[0] == "if"]
-    if len(st) != 1 or len(st[0][1]) != 1 or st[0][2] is not None:
+    allst = _bs.statements(loop, die)
+    st = [x for x in allst if x[0] == "if"]
+    # second spelling: the tag test first, as a guard that skips the rule, then the match test
+    #   let tag_on = match filter.tag.as_ref() { Some(t) => active_tags.contains(t), None => true };
+    #   if !tag_on { continue; }
+    #   if filter.matches(request, regex_manager) { <action> }
+    if (len(allst) == 3 and allst[0][0] == "other" and len(st) == 2
+            and norm(allst[0][1]) in ("lettag_on=matchfilter.tag.as_ref(){Some(t)=>active_tags.contains(t),None=>true,};",
+                                      "lettag_on=filter.tag.as_ref().map(|t|active_tags.contains(t)).unwrap_or(true);")
+            and len(st[0][1]) == 1 and st[0][2] is None and norm(st[0][1][0][0]) == "!tag_on" and norm(st[0][1][0][1]) == "continue;"
+            and len(st[1][1]) == 1 and st[1][2] is None and norm(st[1][1][0][0]) == "filter.matches(request,regex_manager)"):
+        a = norm(st[1][1][0][1])
+        if a == "returnSome(filter);":
+            return "tag_ok&&matches", "return"
+        if a == "filters.push(filter);":
+            return "tag_ok&&matches", "push"
+        die("%s: action on a hit not recognised: %r" % (fn, st[1][1][0][1]))
+    if len(st) != 1 or len(allst) != 1 or len(st[0][1]) != 1 or st[0][2] is not None:
         die("%s: hit test not recognised" % fn)
     cond, act = st[0][1][0]
     c = norm(cond)
